@@ -9,7 +9,8 @@ import z3
 from .. import load
 from ..core import OutsideModel
 from ..findings import regions_for
-from ..sarray import NPProxy, SArray, SDy, SIV, SBV, elem_eq
+from ..core import zbool
+from ..sarray import NPProxy, SArray, SDy, SIV, SBV, elem_eq, elem_ite
 
 PROPERTY = "C07"
 MODULES = ["downscaling", "data_types", "utils"]
@@ -71,6 +72,11 @@ def configs(tier, seed):
         for f, shp in (((2, 2, 2), (2, 2, 2)), ((2, 1, 2), (1, 1, 1)), ((2, 2, 1), (1, 2, 1))):
             out.append(dict(harness="average_f32", e=e, shape=list(shp), factors=list(f), cost=3))
     out.append(dict(harness="factors", cost=1))
+    for method, dtypes in (("average", ["uint8", "uint16", "uint8", "uint32"]), ("average", ["uint16", "uint32", "uint8"]),
+                           ("majority", ["uint8", "uint64", "uint16"]), ("majority", ["uint32", "uint8", "uint32"]),
+                           ("stride", ["uint8", "float32", "uint16"])):
+        fs = [[2, 1, 1], [2, 1, 1], [1, 1, 1], [2, 1, 1]][:len(dtypes)]
+        out.append(dict(harness="reuse", method=method, dtypes=dtypes, factors_seq=fs, cost=1))
     return out
 
 
@@ -244,6 +250,46 @@ def H_stride(ctx, cfg):
     ctx.prove(z3.And(conds), "first-voxel-of-each-block")
 
 
+def H_reuse(ctx, cfg):
+    """One downscaler object serves chunks of different data types, shapes and factors in sequence (as compute-scales and
+    library callers do): every call must answer as a fresh object would - nothing carries over from earlier calls."""
+    method = cfg["method"]
+    ds = _mods(exact=(method == "average"))
+    d = ds.get_downscaler(method, None, {})
+    allv = []
+    for k, (dtype, f) in enumerate(zip(cfg["dtypes"], cfg["factors_seq"])):
+        exact = method == "average" and real_np.dtype(dtype).kind in "ui"
+        n = f[0]
+        chunk = SArray.fresh((1, 1, 1, n), dtype, f"v{k}_", exact_int=exact)
+        allv.append([x.__zexpr__() for x in chunk.a.ravel()])
+        ctx.input("chunks", allv)
+        res = d.downscale(chunk, tuple(f))
+        ok = res.shape == (1, 1, 1, 1) and real_np.dtype(res.dtype) == real_np.dtype(dtype)
+        ctx.prove(ok, f"call-{k}-shape-and-dtype", detail=f"{res.shape} {res.dtype} for input {dtype}")
+        if not ok:
+            continue
+        got = res.a[0, 0, 0, 0]
+        vals = [chunk.a[0, 0, 0, i] for i in range(n)]
+        if method == "stride":
+            c_ = elem_eq(got, vals[0])
+            ctx.prove(z3.BoolVal(c_) if isinstance(c_, bool) else c_, f"call-{k}-first-voxel")
+        elif method == "majority":
+            # n in {1, 2}: the label itself, or the smaller of two different labels (tie -> smallest)
+            want = vals[0] if n == 1 else elem_ite(zbool(vals[1] < vals[0]), vals[1], vals[0])
+            c_ = elem_eq(got, want)
+            ctx.prove(z3.BoolVal(c_) if isinstance(c_, bool) else c_, f"call-{k}-majority-smallest-on-ties")
+        else:
+            if not exact:
+                continue                     # float32 means are covered by average_f32; here only the data type is at stake
+            ts = [v.v for v in vals]
+            sm = z3.Sum(ts) if n > 1 else ts[0]
+            q, r = sm / n, sm % n
+            mean = q + z3.If(z3.Or(2 * r > n, z3.And(2 * r == n, q % 2 == 1)), 1, 0)
+            g = got.v if isinstance(got, SIV) else z3.BV2Int(got.e, False)
+            ctx.prove(g == mean, f"call-{k}-exact-mean-rounded-half-even")
+    ctx.sample(dict(method=method, dtypes=cfg["dtypes"]))
+
+
 def H_factors(ctx, cfg):
     """Unsupported factor triples must raise NotImplementedError (concrete enumeration, no solver content)."""
     ds = _mods(exact=False)
@@ -269,10 +315,34 @@ def H_factors(ctx, cfg):
 
 # --------------------------------------------------------------------- replay
 
+def _replay_reuse(cfg, inp):
+    ds = load.mod("downscaling")
+    method = cfg["method"]
+    d = ds.get_downscaler(method, None, {})
+    for k, (dtype, f) in enumerate(zip(cfg["dtypes"], cfg["factors_seq"])):
+        raw = inp["chunks"][k] if k < len(inp.get("chunks", [])) else [0] * f[0]
+        if dtype == "float32":
+            chunk = real_np.array(raw, dtype=real_np.uint32).view(real_np.float32).reshape(1, 1, 1, f[0])
+        else:
+            chunk = real_np.array(raw, dtype=real_np.uint64).astype(dtype).reshape(1, 1, 1, f[0])
+        fresh = ds.get_downscaler(method, None, {}).downscale(chunk.copy(), tuple(f))
+        try:
+            res = d.downscale(chunk.copy(), tuple(f))
+        except Exception as e:
+            return True, f"call {k} ({dtype}) on a reused {method} downscaler raised {type(e).__name__}: {e}"
+        if res.dtype != chunk.dtype or res.shape != (1, 1, 1, 1):
+            return True, f"call {k}: a reused {method} downscaler returns {res.dtype}{res.shape} for a {dtype} chunk (earlier calls: {cfg['dtypes'][:k]})"
+        if res.tobytes() != fresh.tobytes():
+            return True, f"call {k}: reused {method} downscaler gives {res.ravel().tolist()}, a fresh one {fresh.ravel().tolist()} for {chunk.ravel().tolist()}"
+    return False, "a reused downscaler answers like a fresh one on the real code"
+
+
 def replay(cfg, cex):
     ds = load.mod("downscaling")
     h = cfg["harness"]
     inp = cex["inputs"]
+    if h == "reuse":
+        return _replay_reuse(cfg, inp)
     if h == "factors":
         return bool(inp["bad"]), str(inp["bad"])
     from fractions import Fraction
